@@ -1,4 +1,5 @@
 import Poulpy.Lemmas.AvxNtt
+import Poulpy.Lemmas.NttTable
 /-
 C10: from the lane theorems of `Lemmas/AvxNtt.lean` to whole kernels of the NTT120 AVX2 back end:
 the 4-lanes-per-word loop, the row loops of the product kernels, and the level schedules of `ntt_avx2` / `intt_avx2`.
@@ -608,5 +609,76 @@ theorem inttAvx_eq_inttK (r : RedC) (last : LevelC) (revL : List LevelC) (j : Na
   intro x po hx
   obtain ⟨_, lx⟩ := redIf_spec (redOf r) hr (stepOf last.m last.bs) x.toNat _ hx hMw
   exact iterFirst_eq r last.m last.bs x po (redRange_of_ok q r last.m x hr) (spmRange_of_ok q last.m last.bs _ _ sp lx)
+
+/-! ### the `u64` tables: the AVX2 kernels read the very `NttTable` / `NttTableInv` the reference reads -/
+
+def stepCOf (m : StepMeta) : StepC :=
+  { q2bs := BitVec.ofNat 64 m.q2bs, mask := BitVec.ofNat 64 m.mask, halfBs := BitVec.ofNat 64 m.halfBs, reduce := m.reduce }
+def levelCOf (l : Level) : LevelC := { m := stepCOf l.1, bs := l.1.bs, tw := l.2.map (BitVec.ofNat 64) }
+def redCOf (r : ReducK) : RedC := { h := BitVec.ofNat 64 r.h, mask := BitVec.ofNat 64 r.mask, cst := BitVec.ofNat 64 r.cst }
+
+/-- every field of the table is a `u64` (it is: the crate stores them in `u64` / `[u64; 4]` fields) -/
+def fitsLevel (l : Level) : Bool :=
+  decide (l.1.q2bs < 2 ^ 64) && decide (l.1.mask < 2 ^ 64) && decide (l.1.halfBs < 2 ^ 64) && l.2.all (fun x => decide (x < 2 ^ 64))
+def fitsTable (t : TableK) : Bool :=
+  t.levels.all fitsLevel && decide (t.reduc.h < 2 ^ 64) && decide (t.reduc.mask < 2 ^ 64) && decide (t.reduc.cst < 2 ^ 64)
+
+theorem toLevel_levelCOf (l : Level) (h : fitsLevel l = true) : (levelCOf l).toLevel = l := by
+  unfold fitsLevel at h
+  simp only [Bool.and_eq_true, decide_eq_true_eq, List.all_eq_true] at h
+  obtain ⟨⟨⟨h1, h2⟩, h3⟩, h4⟩ := h
+  obtain ⟨m, tw⟩ := l
+  unfold LevelC.toLevel levelCOf stepCOf stepOf
+  simp only [BitVec.toNat_ofNat, Nat.mod_eq_of_lt h1, Nat.mod_eq_of_lt h2, Nat.mod_eq_of_lt h3]
+  congr 1
+  simp only [tn, List.map_map]
+  conv_rhs => rw [← List.map_id tw]
+  apply List.map_congr_left
+  intro x hx
+  simp only [Function.comp, BitVec.toNat_ofNat, id]
+  exact Nat.mod_eq_of_lt (h4 x hx)
+
+theorem fits_levels (t : TableK) (h : fitsTable t = true) :
+    t.levels = (t.levels.map levelCOf).map LevelC.toLevel ∧ t.reduc = redOf (redCOf t.reduc) := by
+  unfold fitsTable at h
+  simp only [Bool.and_eq_true, decide_eq_true_eq, List.all_eq_true] at h
+  obtain ⟨⟨⟨h1, h2⟩, h3⟩, h4⟩ := h
+  constructor
+  · rw [List.map_map]
+    conv_lhs => rw [← List.map_id t.levels]
+    apply List.map_congr_left
+    intro l hl
+    simp only [Function.comp, id]
+    exact (toLevel_levelCOf l (h1 l hl)).symm
+  · unfold redOf redCOf
+    simp only [BitVec.toNat_ofNat, Nat.mod_eq_of_lt h2, Nat.mod_eq_of_lt h3, Nat.mod_eq_of_lt h4]
+
+/-- **`ntt_avx2` on the real tables**: for every prime set / lane accepted by C07 (`LaneFwd`: all three prime sets, all four
+lanes), every `n = 2^j`, `1 ≤ j ≤ 16`, the table `NttTable::new(n)`, every by-level/by-block split and EVERY input vector, one
+prime lane of `ntt_avx2` is bit for bit the lane of `ntt_ref` -/
+theorem nttAvx_real (P : PrimeSet) (k j : Nat) (g : LaneFwd P k) (hj1 : 1 ≤ j) (hj : j ≤ 16) (t : TableK)
+    (ht : nttTableK P k (2 ^ j) = .ok t) (hf : fitsTable t = true) (split : Nat) (v : List W) (hv : v.length = 2 ^ j) :
+    tn (nttAvx (redCOf t.reduc) (t.levels.map levelCOf) split v) = nttK t (tn v) := by
+  obtain ⟨ok, hlen⟩ := nttTableK_spec P k j g hj1 hj t ht
+  obtain ⟨e1, e2⟩ := fits_levels t hf
+  exact nttAvx_eq_nttK _ _ split t _ ok e1 e2 v (by rw [List.length_map, hlen]; simpa using hv)
+
+/-- **`intt_avx2` on the real tables** (`NttTableInv::new(2^j)`): one prime lane is bit for bit the lane of `intt_ref`, for every
+split `2^jj`-wide chunking and EVERY input vector -/
+theorem inttAvx_real (P : PrimeSet) (k j : Nat) (g : LaneFwd P k) (gi : LaneInv P k) (hj1 : 1 ≤ j) (hj : j ≤ 16) (t : TableK)
+    (ht : inttTableK P k (2 ^ j) = .ok t) (hf : fitsTable t = true) (jj : Nat) (hjj : jj ≤ j) (cs : List (List W))
+    (hc : ∀ c ∈ cs, c.length = 2 ^ jj) (hlen : cs.flatten.length = 2 ^ j) :
+    tn (inttAvx (redCOf t.reduc) (t.levels.map levelCOf) jj cs) = inttK t (tn cs.flatten) := by
+  obtain ⟨ok, hl⟩ := inttTableK_spec P k j g gi hj1 hj t ht
+  obtain ⟨e1, e2⟩ := fits_levels t hf
+  have hlen' : (t.levels.map levelCOf).reverse.length = j + 1 := by simp [hl]
+  match hrev : (t.levels.map levelCOf).reverse, hlen' with
+  | last :: revL, hlen' =>
+    have hshape : t.levels.map levelCOf = revL.reverse ++ [last] := by
+      have := congrArg List.reverse hrev
+      simpa using this
+    have hrl : revL.length = j := by simpa using hlen'
+    rw [hshape] at e1 ⊢
+    exact inttAvx_eq_inttK _ last revL jj t _ _ ok e1 e2 cs (by omega) hc (by rw [hrl]; exact hlen)
 
 end Avx.Ntt
